@@ -917,7 +917,7 @@ func (e *cenv) locsOf(m Expr) []loc {
 				return nil
 			}
 			if isAggregate(t.typ) {
-				var out []loc
+				out := []loc{{Var: vc.elemVar(t.typ), Kind: "global"}}
 				vc.forEachField(t.typ, func(a *Addr) { out = append(out, loc{Var: a.Var, Kind: "field"}) })
 				return out
 			}
